@@ -26,10 +26,15 @@ pub struct StreamStats {
 }
 
 pub fn stream_stats(file: &[u8], cuts: &[usize]) -> Result<StreamStats, String> {
+    stream_stats_opts(file, cuts, &DEFAULT_OPTS)
+}
+
+pub fn stream_stats_opts(file: &[u8], cuts: &[usize], opts: &[bool; 5]) -> Result<StreamStats, String> {
     let file = file.to_vec();
     let cuts = cuts.to_vec();
+    let opts = *opts;
     guarded(move || {
-        let mut dec = png::StreamingDecoder::new();
+        let mut dec = png::StreamingDecoder::new_with_options(decode_options(&opts));
         let mut image_data: Vec<u8> = vec![];
         let mut st = StreamStats { calls: 0, zero_nothing: 0, max_zero_run: 0, consumed: 0, appended: 0, err: "ok".into() };
         let mut bounds = vec![0usize];
@@ -98,12 +103,17 @@ pub struct ReaderStats {
 
 /// path: 0 = next_frame loop, 1 = next_row loop, 2 = next_frame_info skipping, then finish
 pub fn reader_stats(file: &[u8], cuts: &[usize], path: u8, limit: Option<usize>) -> Result<ReaderStats, String> {
+    reader_stats_opts(file, cuts, path, limit, &DEFAULT_OPTS)
+}
+
+pub fn reader_stats_opts(file: &[u8], cuts: &[usize], path: u8, limit: Option<usize>, opts: &[bool; 5]) -> Result<ReaderStats, String> {
     let file = file.to_vec();
     let cuts = cuts.to_vec();
+    let opts = *opts;
     guarded(move || {
         let rd = PieceReader::new(file, cuts);
         let counters = rd.counters.clone();
-        let mut dec = png::Decoder::new(rd);
+        let mut dec = png::Decoder::new_with_options(rd, decode_options(&opts));
         if let Some(l) = limit {
             dec.set_limits(png::Limits { bytes: l });
         }
@@ -198,6 +208,28 @@ fn special_files(rng: &mut Rng) -> Vec<corpus::TestFile> {
         cs.push(RawChunk::new(b"IEND", vec![]));
         out.push(mk(cs, "capacity-boundary"));
     }
+    // chunks of the kinds the options can switch off (tEXt, zTXt, iTXt, iCCP), larger than the 32 KiB chunk buffer: decoded under
+    // every option set (an ignored chunk still has to be read past)
+    for (ty, len) in [(*b"tEXt", 40_000usize), (*b"zTXt", 33_000), (*b"iTXt", 70_000), (*b"iCCP", 40_000)] {
+        let mut body = b"name\0".to_vec();
+        if &ty == b"zTXt" || &ty == b"iCCP" {
+            body.push(0);
+            body.extend(zlib_stream(&rng.bytes(len), &Deflater::Stored(60000)));
+        } else if &ty == b"iTXt" {
+            body.extend_from_slice(&[0, 0, 0, 0]);
+            body.extend((0..len).map(|i| b'a' + (i % 26) as u8));
+        } else {
+            body.extend((0..len).map(|i| b'a' + (i % 26) as u8));
+        }
+        for after in [false, true] {
+            let mut cs = vec![ihdr(40, 30, 8, 2, 0)];
+            if !after { cs.push(RawChunk::new(&ty, body.clone())); }
+            cs.push(RawChunk::new(b"IDAT", z.clone()));
+            if after { cs.push(RawChunk::new(&ty, body.clone())); }
+            cs.push(RawChunk::new(b"IEND", vec![]));
+            out.push(mk(cs, "big-optional-chunk"));
+        }
+    }
     // bytes after the end of the zlib stream: in the same IDAT, and in further IDAT chunks (tolerated, as libpng does)
     let mut zt = z.clone();
     zt.extend(rng.bytes(40));
@@ -218,13 +250,18 @@ fn special_files(rng: &mut Rng) -> Vec<corpus::TestFile> {
 }
 
 fn check(ctx: &mut Ctx, f: &corpus::TestFile, cuts: &[usize], sched: &str) {
-    let key = fnv64(&f.bytes) ^ fnv64(sched.as_bytes());
-    let case = || J::obj().set("file", J::s(&hex(&f.bytes[..f.bytes.len().min(200_000)]))).set("file_len", J::i(f.bytes.len() as u64)).set("schedule", J::s(sched)).set("source", J::s(&f.source));
+    check_opts(ctx, f, cuts, sched, &DEFAULT_OPTS)
+}
+
+fn check_opts(ctx: &mut Ctx, f: &corpus::TestFile, cuts: &[usize], sched: &str, opts: &[bool; 5]) {
+    let key = fnv64(&f.bytes) ^ fnv64(sched.as_bytes()) ^ fnv64(opts_string(opts).as_bytes());
+    let case = || J::obj().set("file", J::s(&hex(&f.bytes[..f.bytes.len().min(200_000)]))).set("file_len", J::i(f.bytes.len() as u64)).set("schedule", J::s(sched)).set("source", J::s(&f.source)).set("opts", J::s(&opts_string(opts)));
     watchdog::enter(&format!("{} {} bytes schedule {} {}", f.source, f.bytes.len(), sched, hex(&f.bytes[..f.bytes.len().min(4000)])));
     ctx.rep.eval(f.bytes.len() > 8, key);
     ctx.rep.count("source", &f.source);
     ctx.rep.count("schedule", sched);
-    match stream_stats(&f.bytes, cuts) {
+    ctx.rep.count("options", &opts_string(opts));
+    match stream_stats_opts(&f.bytes, cuts, opts) {
         Err(p) => ctx.rep.violation("oracle", "streaming/panic", &format!("update panicked: {}", p), case()),
         Ok(st) => {
             ctx.rep.count("streaming outcome", &st.err);
@@ -246,7 +283,7 @@ fn check(ctx: &mut Ctx, f: &corpus::TestFile, cuts: &[usize], sched: &str) {
         }
     }
     for (path, limit) in [(0u8, None), (1, None), (2, None), (0, Some(40_000usize)), (2, Some(70_000))] {
-        match reader_stats(&f.bytes, cuts, path, limit) {
+        match reader_stats_opts(&f.bytes, cuts, path, limit, opts) {
             Err(p) => ctx.rep.violation("oracle", "reader/panic", &format!("Reader call panicked: {}", p), case().set("path", J::i(path))),
             Ok(st) => {
                 if st.fill_buf > 2 * st.bytes + 16 * (2 + st.frames) {
@@ -265,7 +302,7 @@ fn check(ctx: &mut Ctx, f: &corpus::TestFile, cuts: &[usize], sched: &str) {
 }
 
 pub fn run(ctx: &mut Ctx) {
-    ctx.rep.rule = "inputs: reference-built valid files, mutated copies, fuzz corpus, tests/*.png, plus adversarial files (6000 empty IDATs, 1-byte IDATs, 2000 zero-length ancillary chunks, chunks at 32 KiB +-1 / 64 KiB +-1, an 8 MiB deflate bomb, every prefix of a small file) \
+    ctx.rep.rule = "inputs: reference-built valid files, mutated copies, fuzz corpus, tests/*.png, plus adversarial files (6000 empty IDATs, 1-byte IDATs, 2000 zero-length ancillary chunks, chunks at 32 KiB +-1 / 64 KiB +-1, an 8 MiB deflate bomb, every prefix of a small file, tEXt/zTXt/iTXt/iCCP chunks of 33..70 KB before and after IDAT under option sets that ignore them) \
         x schedules (whole, byte-by-byte, random) x paths (StreamingDecoder::update; Reader next_frame / next_row / next_frame_info + finish); counters: per-call (consumed, appended, event), fill_buf/consume calls, longest zero-byte run; watchdog 60 s; \
         non-trivial = file longer than the signature; distinct = hash(file, schedule)".into();
     let mut rng = ctx.rng.fork(1);
@@ -289,6 +326,13 @@ pub fn run(ctx: &mut Ctx) {
             c.push(p);
         }
         check(ctx, f, &c, "random");
+        if f.source == "big-optional-chunk" || f.source == "capacity-boundary" || f.source == "empty-ancillary" {
+            // [ignore_adler32, ignore_crc, ignore_text_chunk, ignore_iccp_chunk, skip_ancillary_crc_failures]
+            for opts in [[true, false, true, false, true], [true, false, false, true, true], [false, true, true, true, false]] {
+                check_opts(ctx, f, &[], "whole", &opts);
+                check_opts(ctx, f, &c, "random", &opts);
+            }
+        }
         if i < 2 {
             ctx.rep.sample(J::obj().set("source", J::s(&f.source)).set("bytes", J::i(f.bytes.len() as u64)));
         }
@@ -300,5 +344,11 @@ pub fn replay(ctx: &mut Ctx, case: &J) {
     let sched = case.get("schedule").and_then(|f| f.as_str()).unwrap_or("whole");
     let cuts: Vec<usize> = if sched == "bytewise" { (1..file.len()).collect() } else { vec![] };
     let f = corpus::TestFile { bytes: file, source: "replay".into(), model_domain: false };
-    check(ctx, &f, &cuts, sched);
+    let mut opts = DEFAULT_OPTS;
+    if let Some(o) = case.get("opts").and_then(|f| f.as_str()) {
+        for (i, ch) in o.chars().take(5).enumerate() {
+            opts[i] = ch == '1';
+        }
+    }
+    check_opts(ctx, &f, &cuts, sched, &opts);
 }
